@@ -7,7 +7,9 @@ package restful
 // -overlay` runs it natively for replay.
 
 import (
+	"bufio"
 	"errors"
+	"net"
 	"net/http"
 	"net/url"
 	"regexp"
@@ -225,10 +227,30 @@ func vRouter(k int) RouteSelector {
 
 type vRec struct {
 	hdr     http.Header
+	sent    http.Header // the headers as they were when the status went out (nil: nothing sent yet)
 	status  int
 	nStatus int
 	chunks  [][]byte
 	broken  bool // every Write fails (client gone)
+}
+
+// commit: like net/http, the header map is sent with the status line; what is set afterwards never reaches the client
+func (r *vRec) commit() {
+	if r.sent != nil {
+		return
+	}
+	r.sent = http.Header{}
+	for k, v := range r.hdr {
+		r.sent[k] = append([]string{}, v...)
+	}
+}
+
+// out: the headers the client sees
+func (r *vRec) out() http.Header {
+	if r.sent != nil {
+		return r.sent
+	}
+	return r.hdr
 }
 
 var vErrBroken = errors.New("verif: broken pipe")
@@ -239,12 +261,14 @@ func (r *vRec) Header() http.Header { return r.hdr }
 func (r *vRec) WriteHeader(s int) {
 	if r.status == 0 {
 		r.status = s
+		r.commit()
 	}
 	r.nStatus++
 }
 func (r *vRec) Write(b []byte) (int, error) {
 	if r.status == 0 {
 		r.status = 200
+		r.commit()
 	}
 	if r.broken {
 		return 0, vErrBroken
@@ -252,6 +276,9 @@ func (r *vRec) Write(b []byte) (int, error) {
 	r.chunks = append(r.chunks, b)
 	return len(b), nil
 }
+
+// Hijack: the recorder plays a connection that can be taken over (the writes keep being recorded)
+func (r *vRec) Hijack() (net.Conn, *bufio.ReadWriter, error) { return nil, nil, nil }
 
 // effective status: 200 when nothing was written
 func (r *vRec) code() int {
